@@ -145,3 +145,34 @@ impl<B: StarkField, H: ElementHasher<BaseField = B>> RandomCoin for RecCoin<H> {
         r
     }
 }
+
+/// A prover-side coin that hands out query positions even when more are requested than the domain has points (the honest
+/// coin asserts): the positions of the largest admissible draw, repeated. With it a prover written against the protocol produces a
+/// proof whose header asks for at least as many queries as the LDE domain has points and that is honest up to the query phase.
+pub struct ClampCoin<H: ElementHasher>(DefaultRandomCoin<H>);
+
+impl<B: StarkField, H: ElementHasher<BaseField = B>> RandomCoin for ClampCoin<H> {
+    type BaseField = B;
+    type Hasher = H;
+    fn new(seed: &[B]) -> Self {
+        ClampCoin(DefaultRandomCoin::<H>::new(seed))
+    }
+    fn reseed(&mut self, data: H::Digest) {
+        self.0.reseed(data)
+    }
+    fn check_leading_zeros(&self, value: u64) -> u32 {
+        self.0.check_leading_zeros(value)
+    }
+    fn draw<E: FieldElement<BaseField = B>>(&mut self) -> Result<E, RandomCoinError> {
+        self.0.draw()
+    }
+    fn draw_integers(&mut self, num_values: usize, domain_size: usize, nonce: u64) -> Result<Vec<usize>, RandomCoinError> {
+        let k = num_values.min(domain_size - 1);
+        let mut v = self.0.draw_integers(k, domain_size, nonce)?;
+        while v.len() < num_values {
+            let x = v[v.len() % k];
+            v.push(x);
+        }
+        Ok(v)
+    }
+}
